@@ -259,4 +259,96 @@ theorem stop_bounded (ts lat gs S G B : Nat) (hS : S + G ≤ B) (hL : lat ≤ B)
             · rw [hc'.2]; exact (wait_wf _ hrw.1).1
             · rw [hc'.2, (wait_wf _ hrw.1).2, hrw.2]; exact hc
 
+/-! ### connections: opened, closed, one at a time -/
+
+/-- a list of (opened a, closed b) pairs in time order: `lo ≤ a ≤ b ≤ next a …` -/
+def Balanced : Nat → List CEv → Prop
+  | _, [] => True
+  | lo, .opened a :: .closed b :: rest => lo ≤ a ∧ a ≤ b ∧ Balanced b rest
+  | _, _ => False
+
+theorem Balanced.mono {lo lo' : Nat} (h : lo' ≤ lo) : ∀ {l : List CEv}, Balanced lo l → Balanced lo' l
+  | [], _ => trivial
+  | .opened _ :: .closed _ :: _, hb => ⟨Nat.le_trans h hb.1, hb.2.1, hb.2.2⟩
+  | [.opened _], hb => hb.elim
+  | .opened _ :: .opened _ :: _, hb => hb.elim
+  | .closed _ :: _, hb => hb.elim
+
+theorem afterCycle_time (stop : Option Nat) (s : St) : s.t ≤ (afterCycle stop s).1.t := by
+  unfold afterCycle
+  split
+  · exact Nat.le_refl _
+  · dsimp only
+    split <;> exact Nat.le_add_right _ _
+
+/-- EVERY CONNECTION THAT IS ESTABLISHED IS CLOSED, AND ONLY ONE IS OPEN AT A TIME: whatever the faults and whenever stop()
+    is called, the connections of a run are a sequence of (opened, closed) pairs in time order - each closed before the
+    next is opened and before start() returns. -/
+theorem conns_balanced (stop : Option Nat) (early : Bool) : ∀ (script : List Outcome) (s : St), Balanced s.t (conns stop early s script)
+  | [], _ => trivial
+  | o :: rest, s => by
+    cases o with
+    | connFail d =>
+      simp only [conns]
+      cases hr : (afterCycle stop { s with t := s.t + d }).2 with
+      | some tr => trivial
+      | none =>
+        dsimp only
+        have ht := afterCycle_time stop { s with t := s.t + d }
+        exact Balanced.mono (by simp only at ht; omega) (conns_balanced stop early rest _)
+    | bindFail d =>
+      simp only [conns]
+      refine ⟨Nat.le_refl _, Nat.le_add_right _ _, ?_⟩
+      cases hr : (afterCycle stop { s with t := s.t + d }).2 with
+      | some tr => trivial
+      | none =>
+        dsimp only
+        have ht := afterCycle_time stop { s with t := s.t + d }
+        exact Balanced.mono (by simpa using ht) (conns_balanced stop early rest _)
+    | session c d g =>
+      simp only [conns]
+      by_cases hst : stopped stop (s.t + c) = true
+      · rw [if_pos hst]
+        exact ⟨Nat.le_add_right _ _, Nat.le_refl _, trivial⟩
+      · rw [if_neg hst]
+        cases stop with
+        | none =>
+          dsimp only
+          refine ⟨Nat.le_add_right _ _, by omega, ?_⟩
+          have ht := afterCycle_time none { t := s.t + c + d + g, bo := s.bo.reset }
+          exact Balanced.mono (by simpa using ht) (conns_balanced none early rest _)
+        | some ts =>
+          dsimp only
+          have hlt : s.t + c < ts := by
+            simp only [stopped, decide_eq_true_eq] at hst; omega
+          by_cases h2 : ts < s.t + c + d
+          · rw [if_pos h2]
+            exact ⟨Nat.le_add_right _ _, Nat.le_of_lt hlt, trivial⟩
+          · rw [if_neg h2]
+            refine ⟨Nat.le_add_right _ _, by split <;> omega, ?_⟩
+            cases hr : (afterCycle (some ts) { t := s.t + c + d + g, bo := s.bo.reset }).2 with
+            | some tr => trivial
+            | none =>
+              dsimp only
+              have ht := afterCycle_time (some ts) { t := s.t + c + d + g, bo := s.bo.reset }
+              exact Balanced.mono (by simp only at ht; split <;> omega) (conns_balanced (some ts) early rest _)
+
+/-- … and without stop() every cycle in which `open_connection` succeeded contributes exactly one such pair -/
+theorem conns_count (early : Bool) : ∀ (script : List Outcome) (s : St),
+    (conns none early s script).length = 2 * (script.filter fun o => match o with | .connFail _ => false | _ => true).length
+  | [], _ => rfl
+  | o :: rest, s => by
+    cases o with
+    | connFail d =>
+      simp only [conns, (afterCycle_none _).1, List.filter_cons]
+      exact conns_count early rest _
+    | bindFail d =>
+      simp only [conns, (afterCycle_none _).1, List.filter_cons, List.length_cons]
+      rw [conns_count early rest _]
+      simp; omega
+    | session c d g =>
+      simp only [conns, stopped, Bool.false_eq_true, if_false, List.filter_cons, List.length_cons]
+      rw [conns_count early rest _]
+      simp; omega
+
 end SmppVerif.Lemmas.Supervisor
